@@ -383,6 +383,40 @@ def _struct(body, r):
                       'reorder', 'insert', 'insert', 'wrap', 'empty',
                       'deep', 'near_miss', 'near_miss', 'near_miss',
                       'unwrap', 'unwrap', 'replace', 'replace', 'replace'])
+        pv = [n for n in nodes if n.tag == 'PARAMVALUE' and
+              n.get('NAME') in ('EnumerationContext', 'EndOfSequence')]
+        if pv and r.random() < 0.25:
+            # the output parameters of an open/pull response
+            eos = [n for n in pv if n.get('NAME') == 'EndOfSequence']
+            ctx = [n for n in pv if n.get('NAME') == 'EnumerationContext']
+            how = r.choice(['ctx_child', 'ctx_child', 'eos_text', 'ctx_drop',
+                            'eos_drop', 'ctx_type', 'swap'])
+            if how == 'ctx_child' or (how == 'ctx_drop' and not ctx):
+                # the context is not a string any more while the sequence
+                # goes on
+                for n in eos:
+                    for v in n.iter('VALUE'):
+                        v.text = 'FALSE'
+                tgt = ctx[0] if ctx else etree.SubElement(
+                    eos[0].getparent(), 'PARAMVALUE',
+                    NAME='EnumerationContext')
+                for kch in list(tgt):
+                    tgt.remove(kch)
+                tgt.append(etree.fromstring(r.choice(VALID_OBJECTS)))
+            elif how == 'eos_text' and eos:
+                for v in eos[0].iter('VALUE'):
+                    v.text = r.choice(['FALSE', 'TRUE', 'false', 'maybe', '',
+                                       '0', ' true '])
+            elif how == 'ctx_drop' and ctx:
+                ctx[0].getparent().remove(ctx[0])
+            elif how == 'eos_drop' and eos:
+                eos[0].getparent().remove(eos[0])
+            elif how == 'ctx_type' and ctx:
+                ctx[0].set('PARAMTYPE', r.choice(CIM_TYPES))
+            elif ctx and eos:
+                ctx[0].set('NAME', 'EndOfSequence')
+                eos[0].set('NAME', 'EnumerationContext')
+            continue
         if m == 'unwrap':
             # an element is replaced by one of its child elements (e.g.
             # VALUE.NAMEDINSTANCE by its INSTANCE)
